@@ -316,10 +316,38 @@ def parse_tla(s):
         return None
 
 def sany(module):
-    p = subprocess.run(['java', '-cp', '/opt/veriftools/tla/tla2tools.jar:/opt/veriftools/tla/CommunityModules-deps.jar', 'tla2sany.SANY', module],
+    p = subprocess.run(['java', '-DTLA-Library=/opt/veriftools/tlapm/lib/tlapm/stdlib', '-cp', '/opt/veriftools/tla/tla2tools.jar:/opt/veriftools/tla/CommunityModules-deps.jar', 'tla2sany.SANY', module],
                        cwd=SPEC, stdout=subprocess.PIPE, stderr=subprocess.STDOUT)
     o = p.stdout.decode(errors='replace')
     return p.returncode == 0 and 'error' not in o.lower().replace('semantic errors:\n\n', ''), o
+
+def tlaps(rep, module, deps, theorems, timeout=1200):
+    """Checks a TLAPS proof module (tlapm, all back ends local); the result is memoised on the module texts.
+    A failing or incomplete proof is a broken check (the specification / proof does not hold together), never a finding."""
+    files = [os.path.join(SPEC, m + '.tla') for m in [module] + list(deps)]
+    key = _hash_files(files, 'tlaps')
+    memo = os.path.join(ensure(os.path.join(WORK, 'cache')), 'tlaps-%s-%s.json' % (module, key))
+    if os.path.exists(memo):
+        res = json.load(open(memo))
+        res['memoised'] = True
+    else:
+        cache = ensure(os.path.join(WORK, 'tlaps', '%s-%d' % (module, os.getpid())))
+        t0 = time.time()
+        try:
+            p = subprocess.run(['tlapm', '--cleanfp', '--cache-dir', cache, '-I', SPEC, os.path.join(SPEC, module + '.tla')], cwd=SPEC,
+                               stdout=subprocess.PIPE, stderr=subprocess.STDOUT, timeout=timeout)
+            out, rc = p.stdout.decode(errors='replace'), p.returncode
+        except subprocess.TimeoutExpired as e:
+            out, rc = (e.stdout or b'').decode(errors='replace') + '\nTIMEOUT', -9
+        m = re.search(r'All (\d+) obligations proved', out)
+        res = dict(module=module, rc=rc, obligations=int(m.group(1)) if m else 0, proved=bool(m) and rc == 0, wall_s=round(time.time() - t0, 1), tail=out[-1200:])
+        shutil.rmtree(cache, ignore_errors=True)
+        if res['proved']:
+            json.dump(res, open(memo, 'w'))
+    rep.cov.setdefault('tlaps', []).append(dict(module=module, theorems=theorems, obligations=res['obligations'], proved=res['proved'], wall_s=res['wall_s']))
+    if not res['proved']:
+        rep.broken.append('TLAPS proof %s not checked (rc=%s): %s' % (module, res['rc'], res['tail'][-600:]))
+    return res
 
 # ------------------------------------------------------------------ findings / report
 
